@@ -83,6 +83,12 @@ def cases(tier: str, seed: int) -> list[dict]:
             if not et.startswith("TETRA"):
                 # tapered extrusion (frustum): prisms / hexas that are not affine images of the reference element
                 out.append({"kind": ["elastic", "thermal"][(k + r) % 2], "dim": 3, "et": et, "law": laws[(k + r) % 4], "ps": False, "mesh": "tapered"})
+        # curved (isoparametric) geometry: a plate with a circular hole, elements of order >= 2, three length scales
+        for j, et in enumerate([e for e in gm.ET_2D + gm.ET_3D if gm.ORDER[e] >= 2]):
+            dim_ = 2 if et in gm.ET_2D else 3
+            kind_ = ["elastic", "thermal"][(j + r) % 2]
+            out.append({"kind": kind_, "dim": dim_, "et": et, "law": laws[(j + r) % 4], "ps": bool(j % 2) and dim_ == 2, "mesh": "curved",
+                        "scale": [1.0, 1e-4, 1e3][(j + r) % 3]})
         for et in gm.ET_1D:
             out.append({"kind": "thermal", "dim": 1, "et": et, "mesh": "line"})
         # mixed element groups
@@ -140,6 +146,13 @@ def build_mesh(case: dict, rng: np.random.Generator):
         bnd = used[(np.abs(xs - xs.min()) < 1e-12) | (np.abs(xs - xs.max()) < 1e-12)]
         return mesh, bnd, L, {"L": L, "n": n}
 
+    if mc == "curved":
+        with quiet():
+            mesh, (Lx, Ly, h, c, R) = gm.mesh_curved(rng, et, dim, case.get("scale", 1.0), layers=case.get("layers", 2))
+            measure = float(mesh.area if dim == 2 else mesh.volume)  # the measure of the curved mesh as the library integrates it (C07 judges that)
+        used = gm.used_nodes(mesh)
+        bnd = np.intersect1d(gm.boundary_nodes(mesh), used)
+        return mesh, bnd, measure, {"curved": True, "scale": case.get("scale", 1.0), "R": R, "h": h if dim == 3 else None}
     h = float(rng.uniform(0.5, 1.5))
     if mc == "mixed":
         # two conforming organised blocks sharing the edge x = 1
